@@ -19,7 +19,7 @@ func repoPkgs(names []string) []string {
 
 func main() {
 	if len(os.Args) < 2 {
-		fmt.Fprintln(os.Stderr, "usage: gvc <check|func|loops|selftest> ...")
+		fmt.Fprintln(os.Stderr, "usage: gvc <check|func|loops|replay> ...")
 		os.Exit(2)
 	}
 	if pf := os.Getenv("GVC_PROF"); pf != "" {
